@@ -121,7 +121,9 @@ def typestate(chk, P, cls):
                   "terminationReason = ReachedFinalTime must accompany EndOfSimulation")
         # guard: time >= finalTime, or TstopReturn with the final-time test
         def final_guard(c):
-            has_final = bool(sx_find(c, lambda y: (y[0] == "var" and y[1] == "finalTime") or (y[0] == "mem" and y[2].endswith("::userFinalTime"))))
+            fin_vars = {d["var"] for _, _, d in f.events(lambda d: d["k"] == "decl" and d.get("init") is not None and
+                                                         bool(sx_find(d["init"], lambda y: y[0] == "mem" and y[2].endswith("::userFinalTime"))))}
+            has_final = bool(sx_find(c, lambda y: (y[0] == "var" and y[1] in fin_vars) or (y[0] == "mem" and y[2].endswith("::userFinalTime"))))
             # CPodes reports its own stop time (tstop = final time) with TstopReturn
             tstop = bool(sx_find(c, lambda y: y[0] in ("enum", "gvar") and y[1].endswith("CPodes::TstopReturn")))
             return (has_final or tstop) and bool(sx_find(c, lambda y: y[0] == "op" and y[1] in (">=", "==", "<=", ">")))
@@ -207,11 +209,12 @@ def reachdef(chk, P):
         def is_min_of(x, names):
             c = sx_find(x, lambda y: y[0] == "call" and y[1].endswith("std::min"))
             return bool(c) and sorted(var_of(z) or "?" for z in c[0][3]) == sorted(names)
-        fin = [d for _, _, d in f.events(lambda d: d["k"] == "decl" and d["var"] == "finalTime")]
+        fin = [d for _, _, d in f.events(lambda d: d["k"] == "decl" and d.get("init") is not None and bool(sx_find(d["init"], lambda y: y[0] == "mem" and y[2].endswith("::userFinalTime"))))]
+        FINV = fin[0]["var"] if fin else "?final"
         fin_ok = bool(fin) and fin[0]["init"][0] == "cond" and bool(sx_find(fin[0]["init"][1], lambda y: y[0] == "mem" and y[2].endswith("::userFinalTime"))) and \
             field_of(fin[0]["init"][3]) is not None and field_of(fin[0]["init"][3]).endswith("::userFinalTime")
         chk.judge(fin_ok, "REACHDEF", "Abstract:finalTime=userFinalTime-or-Infinity", site, "finalTime is userFinalTime unless unset (-1 => Infinity)")
-        chk.judge(len(defs) == 1 and is_min_of(defs[0]["init"], [sched, "finalTime"]), "REACHDEF", "Abstract:tMax=min(scheduled,final)", site,
+        chk.judge(len(defs) == 1 and is_min_of(defs[0]["init"], [sched, FINV]), "REACHDEF", "Abstract:tMax=min(scheduled,final)", site,
                   "tMax is initialised to min(scheduledEventTime, finalTime)")
         ok = True
         for w in asg:
